@@ -6,7 +6,10 @@ checks=${@:-$id}
 cd /verif
 for p in /verif/seeded/$id/round2/patch*.diff; do
   [ -f "$p" ] || continue
-  n=$(basename $p .diff | sed 's/patch//')
+  case "$p" in *.rebased.diff) continue;; esac
+  # a patch whose context was changed by later fix: commits has a re-based twin
+  [ -f "${p%.diff}.rebased.diff" ] && p="${p%.diff}.rebased.diff"
+  n=$(basename $p .diff | sed 's/patch//; s/.rebased//')
   git -C /repo checkout -q -- .
   if ! git -C /repo apply "$p" 2>/tmp/apply.err; then echo "$id r2m$n: patch does not apply: $(head -1 /tmp/apply.err)"; continue; fi
   for c in $checks; do
